@@ -21,8 +21,10 @@ MANIFEST = dict(
          "loop reads at most the bytes given (end <= len), len=-1 never reads past the first NUL, the outcome is exactly one of value+success / "
          "continue / error, and the tokener stays well-formed; json_tokener_new_ex refuses depth < 1. The model is tied to the code by regenerated "
          "enum/flag constants and by a differential run that compares status, end position, value and every public tokener field after every call. "
-         "The clause 'a reset parser behaves exactly like a new one' is decided by the differential run (reset twin vs fresh parser) and by the "
-         "reset_wf theorem; the full observational-equivalence theorem (scrub_irrelevant) is not proved yet.",
+         "The clause 'a reset parser behaves exactly like a new one' is the theorem `reset_behaves_like_new`: for ANY tokener state (reachable "
+         "or not), after json_tokener_reset every later sequence of calls returns call by call what a tokener fresh from json_tokener_new_ex with the "
+         "same depth and flags returns (simulation relation Eqv: the fields reset leaves behind - pb, st_pos, is_double, ucs_char, quote_char - are "
+         "dead while a level waits for a value); the differential run additionally compares a reset twin with a fresh parser.",
     note="Trusted: Lean kernel + propext/Classical.choice/Quot.sound; tools/extract; harness/tok.c + Driver/Tok.lean; ASan/UBSan as observers. The "
          "model is hand-written; that the C code computes indices as the model does rests on the correspondence run. Allocation success assumed (C08).",
     technique="Lean 4 proof (representation invariant + rank/termination, induction over input and call history) + model/implementation correspondence run",
